@@ -243,5 +243,17 @@ def check(model, rep, tier):
     loader_clause(model, rep, funcs)
     halves_clause(model, rep, funcs)
     rng_clause(model, rep, funcs)
+    # the landscape form of the FSC (one value per trial shift) obeys the same formula: obligations shared with C07
+    from . import C07 as _C07
+    from .common import ClauseView
+    shared = {}
+    for a_ in ("acryo/backend/_fsc.py::fsc_landscape", "acryo/backend/_fsc.py::fsc"):
+        try:
+            shared[a_] = funcs.get(a_) or model.func(a_)
+        except Exception:
+            pass
+    _C07.formula_clause(model, ClauseView(rep, "formula"), shared)
+    from .generic import view_update_obligations, functions_in
+    view_update_obligations(model, rep, functions_in(model, ["acryo/loader/_base.py", "acryo/loader/_group.py", "acryo/_utils.py"]), "3 loader")
     from .generic import axis_convention_obligations
     axis_convention_obligations(model, rep, ["acryo/_utils.py"], "1 formula", floor=1)
